@@ -908,9 +908,16 @@ func (f *Flooder) cleanup() {
 	f.cleanupNodeInfoCache(now, expiry)
 	f.nodeInfoMu.Unlock()
 
-	// Cleanup sleep command cache
+	// Cleanup sleep command cache. A signed command stays acceptable for up
+	// to twice the timestamp window after it was first accepted (stamped up
+	// to one window ahead, valid until one window after its timestamp), so
+	// its entry must be remembered at least that long.
+	sleepCmdExpiry := expiry
+	if minExpiry := 2 * f.timestampWindow; sleepCmdExpiry < minExpiry {
+		sleepCmdExpiry = minExpiry
+	}
 	f.sleepCmdMu.Lock()
-	f.cleanupSleepCmdCache(now, expiry)
+	f.cleanupSleepCmdCache(now, sleepCmdExpiry)
 	f.sleepCmdMu.Unlock()
 }
 
